@@ -517,7 +517,6 @@ func c10SweepRun(src *choice.Src) *core.Result {
 	return runC10(p)
 }
 
-
 func c10Enumerate(quick bool, seed uint64, shard, nshards int, emit func([]uint64) bool) bool {
 	maxH, maxN := 4, 64
 	if quick {
@@ -573,9 +572,9 @@ func init() {
 		Explore: []string{"explore"},
 		Sweeps: []core.Sweep{{Name: "single-fault-placement", Entry: "sweep", Enumerate: c10Enumerate,
 			Space: "heights 1..4 (quick 1..3) x tree sizes 1..64 (quick 1..26) x every single stored-hash index x {honest, each of the first 6 fetched tiles x each corruption kind x 2 positions x {fresh reader, after an honest read on the same reader}}"}},
-		Rule: "explore: seeded (height 1..10, 1-4 growth steps up to 300/2000 records, 1-6 stored-hash positions, 0-3 tile faults of 10 kinds, 0-2 further reads on the same reader); sweep: placed single faults. Distinct = distinct (height, size, index set, fault kinds fired, outcome); non-trivial = tree size >= 2 and (a fault was delivered or at least one index was read).",
-		Real: []string{"tlog.TileHashReader.ReadHashes", "tlog.HashFromTile", "tlog.TileForIndex", "tlog.NewTiles", "tlog.Tile.Path", "tlog.ParseTilePath"},
-		Stub: []string{"TileReader (tile server + network + SaveTiles sink)", "tile publisher store", "reference RFC 6962 tree (oracle)"},
+		Rule:        "explore: seeded (height 1..10, 1-4 growth steps up to 300/2000 records, 1-6 stored-hash positions, 0-3 tile faults of 10 kinds, 0-2 further reads on the same reader); sweep: placed single faults. Distinct = distinct (height, size, index set, fault kinds fired, outcome); non-trivial = tree size >= 2 and (a fault was delivered or at least one index was read).",
+		Real:        []string{"tlog.TileHashReader.ReadHashes", "tlog.HashFromTile", "tlog.TileForIndex", "tlog.NewTiles", "tlog.Tile.Path", "tlog.ParseTilePath"},
+		Stub:        []string{"TileReader (tile server + network + SaveTiles sink)", "tile publisher store", "reference RFC 6962 tree (oracle)"},
 		Assumptions: []string{"SHA-256 collision resistance (a corrupted tile never hashes to the true value)", "reference Merkle implementation in sim/ref is correct (cross-checked against a naive recursion in selftest)"},
 	})
 }
